@@ -6,6 +6,9 @@ HERE = os.path.dirname(os.path.abspath(__file__))
 DISPATCH = {
     'C02': 'check_specgraph.py', 'C03': 'check_specgraph.py',
     'C15': 'check_specgraph.py',
+    'C04': 'check_registry.py', 'C05': 'check_registry.py',
+    'C06': 'check_registry.py', 'C07': 'check_registry.py',
+    'C08': 'check_registry.py', 'C09': 'check_registry.py',
 }
 
 
